@@ -157,6 +157,9 @@ func run(c *Case, only string) (*outcome, *vkit.Violation, error) {
 		if viol != nil {
 			return
 		}
+		if _, ok := propertyOf[kind]; !ok {
+			panic("violation kind without a property: " + kind)
+		}
 		if only != "" && only != "ALL" && propertyOf[kind] != only {
 			return
 		}
